@@ -121,6 +121,13 @@ Definition script_path {R : Type} (E : env) (parts : list pyval) : M R pyval :=
   | None => raise TypeError
   end.
 
+(* os.path.join(a, b, ...): the oracle on the component strings *)
+Definition path_join {R : Type} (E : env) (parts : list pyval) : M R pyval :=
+  match all_strs parts with
+  | Some l => ret (VStr (e_pjoin E l))
+  | None => raise TypeError
+  end.
+
 (* datetime.datetime.now().isoformat() *)
 Definition now_iso {R : Type} (E : env) : M R pyval := ret (VStr (e_now E)).
 
